@@ -73,6 +73,20 @@ B10 == <<Chain(<<"y", "b">>, Bin("mul", a, Num(2))), Ret(Bin("add", y, Bin("mul"
 ASSUME Run(B10, E(I(1), I(5)), FT).v = I(8) /\ Assigned(B10) = {"y", "b"}
 ASSUME \A pt \in {E(I(i), I(j)) : i, j \in {0 - 1, 0, 1, 2}} : PWAgrees(<<"a", "b">>, B10, FT, pt, RefMode)
 
+\* call arguments bound by keyword / defaults
+FTD == FT @@ [dflt |-> FnDefD(<<"a", "b">>, <<I(3)>>, <<Ret(Bin("sub", Bin("mul", a, Num(2)), b))>>)]
+VD(e, av, bv) == Eval(e, E(I(av), I(bv)), FTD)
+ASSUME VD(CallKw("sub2", <<b, a>>, <<"b", "a">>), 5, 1) = I(4)          \* sub2(b=b, a=a) = a - b
+ASSUME VD(CallKw("sub2", <<b, a>>, <<"a", "b">>), 5, 1) = I(0 - 4)      \* sub2(a=b, b=a)
+ASSUME VD(CallKw("sub2", <<b, a>>, <<"", "b">>), 5, 1) = I(0 - 4)       \* sub2(b, b=a)
+ASSUME VD(CallKw("sub2", <<b, a>>, <<"", "a">>), 5, 1) = Undef          \* a bound twice
+ASSUME VD(CallKw("sub2", <<b, a>>, <<"a", "zz">>), 5, 1) = Undef /\ VD(CallKw("sub2", <<b>>, <<"a">>), 5, 1) = Undef
+ASSUME VD(Call("dflt", <<a>>), 5, 1) = I(7) /\ VD(CallKw("dflt", <<a, b>>, <<"", "b">>), 5, 1) = I(9)
+ASSUME VD(CallKw("dflt", <<b>>, <<"a">>), 5, 1) = I(0 - 1) /\ VD(Call("dflt", <<>>), 5, 1) = Undef
+BK == <<Ret(Bin("add", CallKw("sub2", <<b, a>>, <<"a", "b">>), CallKw("dflt", <<b>>, <<"a">>)))>>
+ASSUME \A pt \in {E(I(i), I(j)) : i, j \in {0 - 1, 0, 1, 2}} : PWAgrees(<<"a", "b">>, BK, FTD, pt, RefMode)
+ASSUME \E pt \in {E(I(i), I(j)) : i, j \in {0 - 1, 0, 1, 2}} : ~PWAgrees(<<"a", "b">>, BK, FTD, pt, [sim |-> FALSE, eq |-> TRUE])
+
 \* reference translation, and the two wrong instances
 Pts == {E(I(i), I(j)) : i, j \in {0 - 1, 0, 1, 2}}
 Bs == {B1, B2, B3, B4, B5}
